@@ -60,22 +60,27 @@ mutual
     | exec (e : Expr)
     | yield (e : Expr) (into : Option Expr)
     | yieldItem (k v : Expr) (into : Option Expr)
+  /-- a lambda parameter `[...]name [: ann] [= dflt]` (`Lvalue::WithDefault(Lvalue::Annotation(name,
+  Some(ann)), dflt)`, the nesting the parser's `parameter_list` produces); `ann` is an arbitrary
+  expression, evaluated at CALL time, that must denote a type -/
   inductive Param where
-    | mk (name : String) (dflt : Option Expr) (splat : Bool)
+    | mk (name : String) (dflt : Option Expr) (splat : Bool) (ann : Option Expr)
   inductive SwitchArm where
     | mk (p : Pat) (body : Expr)
 end
 
 instance : Inhabited Expr := ⟨.null⟩
 instance : Inhabited ForBody := ⟨.exec .null⟩
-instance : Inhabited Param := ⟨.mk "" none false⟩
+instance : Inhabited Param := ⟨.mk "" none false none⟩
 instance : Inhabited SwitchArm := ⟨.mk .underscore .null⟩
 
 def Param.name : Param → String
-  | .mk n _ _ => n
+  | .mk n _ _ _ => n
 def Param.dflt : Param → Option Expr
-  | .mk _ d _ => d
+  | .mk _ d _ _ => d
 def Param.isSplat : Param → Bool
-  | .mk _ _ s => s
+  | .mk _ _ s _ => s
+def Param.ann : Param → Option Expr
+  | .mk _ _ _ a => a
 
 end Noulith.Core
